@@ -2,8 +2,8 @@
    derivative (all stencils, all validity masks, every run) commutes with the map, and the
    density picks up det M.  Open (non-periodic) directions. *)
 From Coq Require Import Field.
-From DF Require Import Prelude FieldK NDArray Diff Integrate Tools ListLemmas C04_proofs C04_linear
-     C19_vec C19_density.
+From DF Require Import Prelude Constants_gen FieldK NDArray Diff Integrate Tools ListLemmas C04_proofs C04_linear
+     C04_ring C19_vec C19_density.
 
 Section Cont.
 Variable K : FOps.
@@ -52,17 +52,107 @@ Proof.
   f_equal. apply IH. lia.
 Qed.
 
+
+(* ---------- the periodic wrap / crop commute with cell-wise linear combinations ---------- *)
+Lemma last_lin a b x y (u w : list K) : length u = length w ->
+  last (lin a b (x :: u) (y :: w)) 0 = a * last (x :: u) 0 + b * last (y :: w) 0.
+Proof.
+  revert x y w. induction u as [|x' u IH]; intros x y [|y' w] Hl; simpl in Hl; try discriminate.
+  - reflexivity.
+  - change (lin a b (x :: x' :: u) (y :: y' :: w)) with ((a * x + b * y) :: lin a b (x' :: u) (y' :: w)).
+    change (last ((a * x + b * y) :: lin a b (x' :: u) (y' :: w)) 0) with (last (lin a b (x' :: u) (y' :: w)) 0).
+    rewrite IH by lia. reflexivity.
+Qed.
+
+Lemma lin_wrap1 a b (u w : list K) : length u = length w ->
+  wrap1 0 (lin a b u w) = lin a b (wrap1 0 u) (wrap1 0 w).
+Proof.
+  intros Hl. destruct u as [|x u], w as [|y w]; simpl in Hl; try discriminate; [reflexivity|].
+  transitivity (last (lin a b (x :: u) (y :: w)) 0 :: lin a b (x :: u) (y :: w) ++ lin a b [x] [y]);
+    [reflexivity|].
+  rewrite last_lin by lia.
+  rewrite <- (lin_app K a b (x :: u) [x] (y :: w) [y]) by (simpl; lia).
+  reflexivity.
+Qed.
+
+Lemma lin_removelast a b (u w : list K) : length u = length w ->
+  removelast (lin a b u w) = lin a b (removelast u) (removelast w).
+Proof.
+  revert w. induction u as [|x u IH]; intros [|y w] Hl; simpl in Hl; try discriminate; [reflexivity|].
+  destruct u as [|x' u], w as [|y' w]; simpl in Hl; try discriminate; [reflexivity|].
+  change (lin a b (x :: x' :: u) (y :: y' :: w)) with ((a * x + b * y) :: lin a b (x' :: u) (y' :: w)).
+  change (removelast ((a * x + b * y) :: lin a b (x' :: u) (y' :: w)))
+    with ((a * x + b * y) :: removelast (lin a b (x' :: u) (y' :: w))).
+  rewrite IH by (simpl; lia). reflexivity.
+Qed.
+
+Lemma lin_crop1 a b (u w : list K) : length u = length w ->
+  crop1 (lin a b u w) = lin a b (crop1 u) (crop1 w).
+Proof.
+  intros Hl. unfold crop1. destruct u as [|x u], w as [|y w]; simpl in Hl; try discriminate; [reflexivity|].
+  change (tl (lin a b (x :: u) (y :: w))) with (lin a b u w). cbn [tl].
+  apply lin_removelast. lia.
+Qed.
+
+Lemma removelast_length {A} (l : list A) : length (removelast l) = (length l - 1)%nat.
+Proof.
+  induction l as [|x l IH]; [reflexivity|]. destruct l as [|y l]; [reflexivity|].
+  change (removelast (x :: y :: l)) with (x :: removelast (y :: l)). simpl length in *. lia.
+Qed.
+Lemma crop1_length {A} (l : list A) : length (crop1 l) = (length l - 2)%nat.
+Proof. unfold crop1. rewrite removelast_length. destruct l; simpl; lia. Qed.
+
+Lemma wrap1_length' {A} (d : A) (l : list A) : length (wrap1 d l) = match l with [] => 0%nat | _ => (length l + 2)%nat end.
+Proof. destruct l; [reflexivity|]. unfold wrap1. simpl. rewrite app_length. simpl. lia. Qed.
+
+Lemma diff_line_length order h per (u : list K) valid : length u = length valid ->
+  length (diff_line K order h per true u valid) = length u.
+Proof.
+  intros Hl. unfold diff_line. destruct per.
+  - rewrite crop1_length, (sdc_length K).
+    + rewrite wrap1_length'. destruct u; simpl; lia.
+    + rewrite !wrap1_length'. destruct u, valid; simpl in *; try discriminate; lia.
+  - apply (sdc_length K). exact Hl.
+Qed.
+
+Lemma diff_line_lin order h per a b (u w : list K) valid :
+  length u = length w -> length u = length valid ->
+  diff_line K order h per true (lin a b u w) valid
+  = lin a b (diff_line K order h per true u valid) (diff_line K order h per true w valid).
+Proof.
+  intros Hw Hv. unfold diff_line. destruct per.
+  - rewrite lin_wrap1 by exact Hw.
+    assert (L1 : length (wrap1 0 u) = length (wrap1 0 w))
+      by (rewrite !wrap1_length'; destruct u, w; simpl in *; try discriminate; lia).
+    assert (L2 : length (wrap1 0 u) = length (wrap1 true valid))
+      by (rewrite !wrap1_length'; destruct u, valid; simpl in *; try discriminate; lia).
+    rewrite (sdc_lin K HK) by assumption.
+    apply lin_crop1. rewrite !(sdc_length K) by congruence. exact L1.
+  - apply (sdc_lin K HK); assumption.
+Qed.
+
+Lemma diff_line_lin3 order h per r u v w valid :
+  length u = length v -> length u = length w -> length u = length valid ->
+  diff_line K order h per true (lin3 r u v w) valid
+  = lin3 r (diff_line K order h per true u valid) (diff_line K order h per true v valid)
+           (diff_line K order h per true w valid).
+Proof.
+  intros Hv Hw Hm. unfold lin3.
+  rewrite diff_line_lin by (rewrite ?(lin_length K) by exact Hv; assumption).
+  rewrite (diff_line_lin order h per (vx K r) (vy K r) u v valid Hv Hm). reflexivity.
+Qed.
+
 Section Axis.
-Variables (sh : list nat) (ax order : nat) (h : K) (valid : idx -> bool).
+Variables (sh : list nat) (ax order : nat) (h : K) (per : bool) (valid : idx -> bool).
 
 Lemma diff_nd_comp (f : idx -> K) (i : idx) (c : nat) :
   (ax < length i)%nat -> length i = length sh ->
-  diff_nd K sh 3 ax order h false true f valid (i ++ [c])
+  diff_nd K sh 3 ax order h per true f valid (i ++ [c])
   = nth (nth ax i 0%nat)
-        (sdc K order h (map (fun j => f (set_nth ax j i ++ [c])) (iota 0 (nth ax sh 0%nat)))
+        (diff_line K order h per true (map (fun j => f (set_nth ax j i ++ [c])) (iota 0 (nth ax sh 0%nat)))
              (map (fun j => valid (set_nth ax j i)) (iota 0 (nth ax sh 0%nat)))) 0.
 Proof.
-  intros Ha Hl. unfold diff_nd, along_axis2, line, diff_line. cbv beta zeta iota.
+  intros Ha Hl. unfold diff_nd, along_axis2, line.
   rewrite removelast_last, !app_nth1 by lia. f_equal. f_equal.
   apply map_ext. intros j. rewrite set_nth_app by lia. reflexivity.
 Qed.
@@ -73,8 +163,8 @@ Proof. unfold amap, arr_of. rewrite last_last, removelast_last. reflexivity. Qed
 
 Theorem diff_nd_mv (M : Tools.mat3 K) (o : idx -> K) (i : idx) :
   (ax < length i)%nat -> length i = length sh ->
-  vec_at K (diff_nd K sh 3 ax order h false true (amap K (mv K M) o) valid) i
-  = mv K M (vec_at K (diff_nd K sh 3 ax order h false true o valid) i).
+  vec_at K (diff_nd K sh 3 ax order h per true (amap K (mv K M) o) valid) i
+  = mv K M (vec_at K (diff_nd K sh 3 ax order h per true o valid) i).
 Proof.
   intros Ha Hl. unfold vec_at at 1 2. rewrite !diff_nd_comp by assumption.
   set (V := map (fun j => valid (set_nth ax j i)) (iota 0 (nth ax sh 0%nat))).
@@ -83,18 +173,18 @@ Proof.
     by (intros g; unfold V, L; rewrite !map_length; reflexivity).
   assert (HLL : forall g g' : nat -> K, length (map g L) = length (map g' L))
     by (intros g g'; rewrite !map_length; reflexivity).
-  assert (HS : forall g g' : nat -> K, length (sdc K order h (map g L) V) = length (sdc K order h (map g' L) V))
-    by (intros g g'; rewrite !(sdc_length K) by apply HLV; apply HLL).
+  assert (HS : forall g g' : nat -> K, length (diff_line K order h per true (map g L) V) = length (diff_line K order h per true (map g' L) V))
+    by (intros g g'; rewrite !diff_line_length by apply HLV; apply HLL).
   assert (Hrow : forall r : vec,
     nth (nth ax i 0%nat)
-        (sdc K order h (map (fun j => dot3 K r (vec_at K o (set_nth ax j i))) L) V) 0
-    = dot3 K r (nth (nth ax i 0%nat) (sdc K order h (map (fun j => o (set_nth ax j i ++ [0%nat])) L) V) 0,
-                nth (nth ax i 0%nat) (sdc K order h (map (fun j => o (set_nth ax j i ++ [1%nat])) L) V) 0,
-                nth (nth ax i 0%nat) (sdc K order h (map (fun j => o (set_nth ax j i ++ [2%nat])) L) V) 0)).
+        (diff_line K order h per true (map (fun j => dot3 K r (vec_at K o (set_nth ax j i))) L) V) 0
+    = dot3 K r (nth (nth ax i 0%nat) (diff_line K order h per true (map (fun j => o (set_nth ax j i ++ [0%nat])) L) V) 0,
+                nth (nth ax i 0%nat) (diff_line K order h per true (map (fun j => o (set_nth ax j i ++ [1%nat])) L) V) 0,
+                nth (nth ax i 0%nat) (diff_line K order h per true (map (fun j => o (set_nth ax j i ++ [2%nat])) L) V) 0)).
   { intros r. unfold dot3 at 1, vec_at. cbn [vx vy vz fst snd].
     rewrite (map_lin3 r (fun j => o (set_nth ax j i ++ [0%nat])) (fun j => o (set_nth ax j i ++ [1%nat]))
                       (fun j => o (set_nth ax j i ++ [2%nat])) L).
-    rewrite sdc_lin3 by (first [apply HLL | apply HLV]).
+    rewrite diff_line_lin3 by (first [apply HLL | apply HLV]).
     rewrite nth_lin3 by apply HS. reflexivity. }
   replace (map (fun j => amap K (mv K M) o (set_nth ax j i ++ [0%nat])) L)
     with (map (fun j => dot3 K (mrow1 K M) (vec_at K o (set_nth ax j i))) L)
@@ -110,10 +200,10 @@ Qed.
 End Axis.
 
 (* the continuous density picks up det M under ANY linear map of the vectors *)
-Theorem tcd_cont_mv c4 sh h1 h2 (M : Tools.mat3 K) o valid i :
+Theorem tcd_cont_mv c4 sh h1 h2 per1 per2 (M : Tools.mat3 K) o valid i :
   length sh = 2%nat -> length i = 2%nat ->
-  tcd_cont K c4 sh h1 h2 false false (amap K (mv K M) o) valid i
-  = det3 K M * tcd_cont K c4 sh h1 h2 false false o valid i.
+  tcd_cont K c4 sh h1 h2 per1 per2 (amap K (mv K M) o) valid i
+  = det3 K M * tcd_cont K c4 sh h1 h2 per1 per2 o valid i.
 Proof.
   intros Hs Hi. unfold tcd_cont. cbv zeta.
   rewrite vec_at_amap by exact HK.
@@ -121,16 +211,16 @@ Proof.
   apply density_core_mv. exact HK.
 Qed.
 
-Theorem tcd_cont_rot c4 sh h1 h2 (M : Tools.mat3 K) o valid i :
+Theorem tcd_cont_rot c4 sh h1 h2 per1 per2 (M : Tools.mat3 K) o valid i :
   length sh = 2%nat -> length i = 2%nat -> det3 K M = 1 ->
-  tcd_cont K c4 sh h1 h2 false false (amap K (mv K M) o) valid i
-  = tcd_cont K c4 sh h1 h2 false false o valid i.
+  tcd_cont K c4 sh h1 h2 per1 per2 (amap K (mv K M) o) valid i
+  = tcd_cont K c4 sh h1 h2 per1 per2 o valid i.
 Proof. intros Hs Hi HD. rewrite tcd_cont_mv by assumption. rewrite HD. ring. Qed.
 
-Theorem tcd_cont_neg c4 sh h1 h2 o valid i :
+Theorem tcd_cont_neg c4 sh h1 h2 per1 per2 o valid i :
   length sh = 2%nat -> length i = 2%nat ->
-  tcd_cont K c4 sh h1 h2 false false (amap K (mv K (mneg K)) o) valid i
-  = fopp (tcd_cont K c4 sh h1 h2 false false o valid i).
+  tcd_cont K c4 sh h1 h2 per1 per2 (amap K (mv K (mneg K)) o) valid i
+  = fopp (tcd_cont K c4 sh h1 h2 per1 per2 o valid i).
 Proof. intros Hs Hi. rewrite tcd_cont_mv by assumption. rewrite (det3_mneg K HK). ring. Qed.
 
 (* the emergent field (pointwise core) is homogeneous of degree 3 and picks up det M *)
